@@ -277,6 +277,7 @@ def _copy_layer_to_x_sparse(
                 dst_grp.create_dataset(
                     el,
                     shape=src_dataset.shape,
+                    maxshape=src_dataset.maxshape,
                     chunks=chunks,
                     dtype=dtype)
                 if chunks is None:
